@@ -4,6 +4,7 @@ import (
 	"go/ast"
 	"go/token"
 	"go/types"
+	"sort"
 	"strings"
 )
 
@@ -19,6 +20,8 @@ func init() {
 		Run: func(c *Ctx) {
 			c.rulePathOrder("R-PATH-ORDER")
 			c.ruleFieldMaskGroupName("R-FIELDMASK-GROUP-NAME")
+			c.ruleIntersectMerge("R-INTERSECT-MERGE")
+			c.ruleRangeFieldsSegments("R-RANGEFIELDS-SEGMENTS")
 		},
 	})
 }
@@ -245,3 +248,255 @@ func (c *Ctx) ruleFieldMaskGroupName(rule string) {
 		R.Unk(rule, fi.Key, P.Pos(fi.Decl), "rejection of a GroupKind field found by its own name not found")
 	}
 }
+
+// R-INTERSECT-MERGE: Intersect walks two lists with two cursors and relies on
+// both being sorted with lessPath and prefix-free, i.e. both being results of
+// normalizePaths; the four cases have to treat the two lists alike; the
+// results of Union and Intersect are normalized.
+func (c *Ctx) ruleIntersectMerge(rule string) {
+	R, P := c.R, c.P
+	R.Rule(rule, "fieldmaskpb.Intersect: every list indexed by the two-cursor merge loop was last assigned from normalizePaths(...) before the loop; the loop's cases are invariant under exchanging the two lists; Union and Intersect return normalizePaths(...) as Paths", 4)
+	const pk = "types/known/fieldmaskpb."
+	fi := c.need(rule, pk+"Intersect")
+	if fi == nil {
+		return
+	}
+	info := fi.Info()
+	var loop *ast.ForStmt
+	var lit *ast.FuncLit
+	walkAll(fi.Decl.Body, func(n ast.Node) bool {
+		if fl, ok := n.(*ast.FuncLit); ok && lit == nil {
+			walk(fl.Body, func(m ast.Node) bool {
+				if fs, ok := m.(*ast.ForStmt); ok && loop == nil && fs.Cond != nil && strings.Contains(exprStr(fs.Cond), "&&") {
+					loop, lit = fs, fl
+				}
+				return true
+			})
+		}
+		return true
+	})
+	if loop == nil {
+		R.Unk(rule, fi.Key+" merge loop", P.Pos(fi.Decl), "two-cursor merge loop not found")
+	} else {
+		// lists: X in `i < len(X)` conjuncts of the loop condition
+		var lists []types.Object
+		var cursors []string
+		walk(loop.Cond, func(n ast.Node) bool {
+			be, ok := n.(*ast.BinaryExpr)
+			if !ok || be.Op != token.LSS {
+				return true
+			}
+			if call, ok := unparen(be.Y).(*ast.CallExpr); ok && len(call.Args) == 1 && exprStr(call.Fun) == "len" {
+				if id, ok := unparen(call.Args[0]).(*ast.Ident); ok {
+					lists = append(lists, info.Uses[id])
+					cursors = append(cursors, exprStr(be.X))
+				}
+			}
+			return true
+		})
+		if len(lists) != 2 {
+			R.Unk(rule, fi.Key+" merge loop", P.Pos(loop), "expected two `cursor < len(list)` conjuncts")
+		} else {
+			for _, lo := range lists {
+				var last ast.Expr
+				for _, st := range lit.Body.List {
+					if st.Pos() >= loop.Pos() {
+						break
+					}
+					if as, ok := st.(*ast.AssignStmt); ok && len(as.Lhs) == 1 && len(as.Rhs) == 1 {
+						if id, ok := as.Lhs[0].(*ast.Ident); ok && info.Uses[id] == lo {
+							last = as.Rhs[0]
+						}
+					}
+				}
+				norm := false
+				if call, ok := last.(*ast.CallExpr); ok && calleeKey(info, call) == pk+"normalizePaths" {
+					norm = true
+				}
+				got := "never assigned before the loop"
+				if last != nil {
+					got = "`" + exprStr(last) + "`"
+				}
+				R.Check(norm, rule, fi.Key+" merged list "+lo.Name(), P.Pos(loop), "normalizePaths(...)", "the merge loop walks "+lo.Name()+", which is "+got+" and not a result of normalizePaths: on an unsorted or non-prefix-free list the two cursors skip paths that both masks cover")
+			}
+			// symmetry of the cases
+			var sw *ast.SwitchStmt
+			for _, st := range loop.Body.List {
+				if s, ok := st.(*ast.SwitchStmt); ok {
+					sw = s
+				}
+			}
+			if sw == nil {
+				R.Unk(rule, fi.Key+" merge cases", P.Pos(loop), "case switch not found")
+			} else {
+				swap := map[string]string{cursors[0]: cursors[1], cursors[1]: cursors[0], lists[0].Name(): lists[1].Name(), lists[1].Name(): lists[0].Name()}
+				if as, ok := sw.Init.(*ast.AssignStmt); ok && len(as.Lhs) == 2 {
+					a, b := exprStr(as.Lhs[0]), exprStr(as.Lhs[1])
+					swap[a], swap[b] = b, a
+				}
+				var a, b []string
+				for _, cl := range sw.Body.List {
+					cc := cl.(*ast.CaseClause)
+					sa, sb := "", ""
+					for _, e := range cc.List {
+						sa += swapCanon(info, e, nil)
+						sb += swapCanon(info, e, swap)
+					}
+					for _, st := range cc.Body {
+						sa += ";" + swapCanon(info, st, nil)
+						sb += ";" + swapCanon(info, st, swap)
+					}
+					a, b = append(a, sa), append(b, sb)
+				}
+				sortStrings(a)
+				sortStrings(b)
+				R.Check(strings.Join(a, "\n") == strings.Join(b, "\n") && len(a) >= 4, rule, fi.Key+" merge cases", P.Pos(sw), itoa(len(a))+" cases invariant under exchanging the lists", "the cases of the merge loop change when the two lists are exchanged: Intersect(a, b) and Intersect(b, a) keep different paths")
+			}
+		}
+	}
+	for _, name := range []string{"Union", "Intersect"} {
+		f := c.need(rule, pk+name)
+		if f == nil {
+			continue
+		}
+		inf := f.Info()
+		ok, n := true, 0
+		for _, st := range f.Decl.Body.List {
+			rs, k := st.(*ast.ReturnStmt)
+			if !k || len(rs.Results) != 1 {
+				continue
+			}
+			n++
+			good := false
+			walk(rs.Results[0], func(m ast.Node) bool {
+				if kv, k := m.(*ast.KeyValueExpr); k && exprStr(kv.Key) == "Paths" {
+					if call, k := unparen(kv.Value).(*ast.CallExpr); k && calleeKey(inf, call) == pk+"normalizePaths" {
+						good = true
+					}
+				}
+				return true
+			})
+			ok = ok && good
+		}
+		R.Check(ok && n > 0, rule, pk+name+" result", P.Pos(f.Decl), "Paths: normalizePaths(...)", name+" returns paths that are not passed through normalizePaths: the result is not sorted and prefix-free")
+	}
+}
+
+// R-RANGEFIELDS-SEGMENTS: rangeFields is strings.Split(path, ".") without the
+// allocation: f sees every segment, including the empty one after a trailing
+// separator, which is what makes "a." and "a..b" invalid paths.
+func (c *Ctx) ruleRangeFieldsSegments(rule string) {
+	R, P := c.R, c.P
+	R.Rule(rule, "fieldmaskpb.rangeFields: on the separator branch the remainder keeps the separator (path[i:], so the `len(path) == 0` exit cannot be taken right after a separator) and exactly one separator is removed afterwards (strings.TrimPrefix or path[1:]); f is applied to the segment before the exit test and its false result returns false", 2)
+	fi := c.need(rule, "types/known/fieldmaskpb.rangeFields")
+	if fi == nil {
+		return
+	}
+	info := fi.Info()
+	var loop *ast.ForStmt
+	for _, st := range fi.Decl.Body.List {
+		if fs, ok := st.(*ast.ForStmt); ok {
+			loop = fs
+		}
+	}
+	if loop == nil || len(fi.Decl.Type.Params.List) == 0 {
+		R.Unk(rule, fi.Key, P.Pos(fi.Decl), "loop not found")
+		return
+	}
+	pathObj := info.Defs[fi.Decl.Type.Params.List[0].Names[0]]
+	isPath := func(e ast.Expr) bool {
+		id, ok := unparen(e).(*ast.Ident)
+		return ok && info.Uses[id] == pathObj
+	}
+	var split *ast.IfStmt
+	var idx types.Object
+	for _, st := range loop.Body.List {
+		if is, ok := st.(*ast.IfStmt); ok && is.Init != nil && split == nil {
+			if as, ok := is.Init.(*ast.AssignStmt); ok && len(as.Rhs) == 1 {
+				if call, ok := as.Rhs[0].(*ast.CallExpr); ok && strings.HasPrefix(calleeKey(info, call), "strings.Index") && len(call.Args) == 2 && isPath(call.Args[0]) {
+					split = is
+					idx = info.Defs[as.Lhs[0].(*ast.Ident)]
+				}
+			}
+		}
+	}
+	if split == nil {
+		R.Unk(rule, fi.Key+" split", P.Pos(loop), "`if i := strings.IndexByte(path, '.'); i >= 0` not found")
+		return
+	}
+	// remainder on the separator branch
+	off, found := int64(-1), false
+	for _, st := range split.Body.List {
+		as, ok := st.(*ast.AssignStmt)
+		if !ok || len(as.Lhs) != len(as.Rhs) {
+			continue
+		}
+		for i, l := range as.Lhs {
+			if !isPath(l) {
+				continue
+			}
+			se, ok := unparen(as.Rhs[i]).(*ast.SliceExpr)
+			if !ok || !isPath(se.X) || se.High != nil || se.Low == nil {
+				continue
+			}
+			found = true
+			switch lo := unparen(se.Low).(type) {
+			case *ast.Ident:
+				if info.Uses[lo] == idx {
+					off = 0
+				}
+			case *ast.BinaryExpr:
+				if id, ok := unparen(lo.X).(*ast.Ident); ok && info.Uses[id] == idx && lo.Op == token.ADD {
+					if v, ok := constantInt64(info.Types[lo.Y].Value); ok {
+						off = v
+					}
+				}
+			}
+		}
+	}
+	if !found || off < 0 {
+		R.Unk(rule, fi.Key+" remainder", P.Pos(split), "remainder assignment `path = path[i+c:]` on the separator branch not recognised")
+		return
+	}
+	R.Check(off == 0, rule, fi.Key+" remainder", P.Pos(split), "path[i:] keeps the separator", "on the separator branch the remainder is path[i+"+itoa(int(off))+":], which is empty when the separator is the last byte: the exit test `len(path) == 0` then ends the iteration and the empty segment after a trailing separator never reaches f, so `a.` is accepted as a valid path")
+	// after the split: f(field) false → return false; then exit test; then one-separator removal
+	stage := 0
+	okOrder, oneSep := false, false
+	after := false
+	for _, st := range loop.Body.List {
+		if st == ast.Stmt(split) {
+			after = true
+			continue
+		}
+		if !after {
+			continue
+		}
+		switch x := st.(type) {
+		case *ast.IfStmt:
+			cs := exprStr(x.Cond)
+			retFalse := false
+			if len(x.Body.List) == 1 {
+				if rs, ok := x.Body.List[0].(*ast.ReturnStmt); ok && len(rs.Results) == 1 && exprStr(rs.Results[0]) == "false" {
+					retFalse = true
+				}
+			}
+			if stage == 0 && strings.HasPrefix(cs, "!") && strings.Contains(cs, "(field)") && retFalse {
+				stage = 1
+			} else if stage == 1 && (cs == "len(path) == 0" || cs == `path == ""`) {
+				stage = 2
+				okOrder = true
+			}
+		case *ast.AssignStmt:
+			if stage == 2 && len(x.Lhs) == 1 && isPath(x.Lhs[0]) {
+				r := exprStr(x.Rhs[0])
+				oneSep = r == `strings.TrimPrefix(path, ".")` || r == "path[1:]"
+			}
+		}
+	}
+	R.Check(okOrder, rule, fi.Key+" order", P.Pos(loop), "f(field) tested before the exit test", "f is not applied to the segment (with false returning false) before the `len(path) == 0` exit: a segment escapes validation")
+	if off == 0 {
+		R.Check(oneSep, rule, fi.Key+" separator removal", P.Pos(loop), "exactly one separator removed", "the separator kept in the remainder is not removed by strings.TrimPrefix(path, \".\") or path[1:]: removing a run of separators accepts `a..b`, removing none never terminates")
+	}
+}
+
+func sortStrings(s []string) { sort.Strings(s) }
